@@ -1,1 +1,329 @@
 // Kani contract harnesses for /repo/arrow-buffer/src/builder/null.rs (child module: sees private items via super::)
+use super::*;
+#[path = "/verif/kani/support/spec.rs"]
+mod spec;
+#[allow(unused_imports)]
+use spec::*;
+
+// ---------------------------------------------------------------------------------------------
+// Shared harness helpers (spec side). Nothing here calls the code under test.
+// ---------------------------------------------------------------------------------------------
+
+/// N <= 64 fully symbolic bytes built without a loop (lets a harness use a small unwind bound).
+#[allow(dead_code)]
+fn any_bytes<const N: usize>() -> [u8; N] {
+    let w: (u128, u128, u128, u128) = (kani::any(), kani::any(), kani::any(), kani::any());
+    let full: [u8; 64] = unsafe { std::mem::transmute(w) };
+    let mut out = [0u8; N];
+    out.copy_from_slice(&full[..N]);
+    out
+}
+#[allow(dead_code)]
+fn mask(b: bool) -> u64 { if b { u64::MAX } else { 0 } }
+
+// STUB (listed): `core::ptr::align_offset`, the single address-dependent step of
+// `<[u8]>::align_to::<u64>()`. CBMC cannot constant-fold an address during symbolic execution, so
+// without it every slice length after `align_to` is symbolic (measured: out of memory / > 5 min).
+// The stub returns the exact value of the real function for a pointer whose address is congruent
+// to the harness-supplied skew modulo 8, and it *asserts* that congruence on the real address, so
+// nothing is assumed about the allocator; the rest of the real `align_to` runs unchanged.
+// The k-th call uses ALIGN_SKEWS[k] (control flow is concrete, so k is concrete).
+#[allow(dead_code)]
+static mut ALIGN_SKEWS: [usize; 6] = [0; 6];
+#[allow(dead_code)]
+static mut ALIGN_CALLS: usize = 0;
+#[allow(dead_code)]
+fn set_skews(s: [usize; 6]) { unsafe { ALIGN_SKEWS = s; ALIGN_CALLS = 0; } }
+/// builder for the list of expected `align_to` calls of one harness (bookkeeping only: a wrong
+/// prediction makes the stub's address assertion fail, it can never hide a violation)
+#[derive(Clone, Copy)]
+#[allow(dead_code)]
+struct Skews { s: [usize; 6], n: usize }
+#[allow(dead_code)]
+fn skews() -> Skews { Skews { s: [0; 6], n: 0 } }
+#[allow(dead_code)]
+impl Skews {
+    /// one `align_to` call on a slice that starts `sk` bytes past an 8-byte aligned address
+    fn raw(mut self, sk: usize) -> Self { self.s[self.n] = sk % 8; self.n += 1; self }
+    /// the `align_to` call of `UnalignedBitChunk::new(bytes, off, len)` (made only when the addressed
+    /// byte range is longer than 16 bytes), `bytes` starting `sk` bytes past an 8-byte aligned address
+    fn ubc(self, sk: usize, off: usize, len: usize) -> Self {
+        if len > 0 && (len + off % 8 + 7) / 8 > 16 { self.raw(sk + off / 8) } else { self }
+    }
+    fn install(self) { unsafe { ALIGN_SKEWS = self.s; ALIGN_CALLS = 0; } }
+}
+#[allow(dead_code)]
+unsafe fn stub_align_offset<T>(p: *const T, a: usize) -> usize {
+    assert!(std::mem::size_of::<T>() == 1 && a == 8);
+    let k = unsafe { ALIGN_CALLS };
+    assert!(k < 6);
+    unsafe { ALIGN_CALLS = k + 1 };
+    let skew = unsafe { ALIGN_SKEWS[k] } % a;
+    assert!((p as usize) % a == skew);
+    (a - skew) % a
+}
+macro_rules! inst {
+    ($name:ident, $unwind:expr, $call:expr) => {
+        #[kani::proof]
+        #[kani::unwind($unwind)]
+        #[kani::stub(core::ptr::align_offset, stub_align_offset)]
+        fn $name() { $call }
+    };
+}
+
+use crate::{BooleanBuffer, Buffer};
+
+// Model: the Vec<bool> of validity values appended so far, plus `mat` = "the operation sequence
+// contained an operation that appends at least one null (false)" -- the condition under which the
+// builder may no longer answer None.
+const MAXM: usize = 300;
+struct Model { v: [bool; MAXM], n: usize, mat: bool }
+impl Model {
+    fn new() -> Self { Model { v: [true; MAXM], n: 0, mat: false } }
+    fn push(&mut self, b: bool) { self.v[self.n] = b; self.n += 1; if !b { self.mat = true; } }
+    fn push_n(&mut self, k: usize, b: bool) { let mut i = 0; while i < k { self.push(b); i += 1; } }
+    fn push_slice(&mut self, s: &[bool]) { let mut i = 0; while i < s.len() { self.push(s[i]); i += 1; } }
+    fn push_bits(&mut self, bytes: &[u8], start: usize, len: usize) { let mut i = 0; while i < len { self.push(bit(bytes, start + i)); i += 1; } }
+    fn truncate(&mut self, k: usize) { if k <= self.n { self.n = k; } }
+    fn nulls(&self) -> usize { let mut c = 0; let mut i = 0; while i < self.n { if !self.v[i] { c += 1; } i += 1; } c }
+}
+fn check(b: &NullBufferBuilder, m: &Model) {
+    assert!(b.len() == m.n && b.is_empty() == (m.n == 0));
+    match b.as_slice() {
+        None => assert!(!m.mat),
+        Some(s) => { assert!(m.mat); assert!(s.len() == (m.n + 7) / 8); }
+    }
+    if m.n > 0 {
+        let j: usize = kani::any();
+        kani::assume(j < m.n);
+        assert!(b.is_valid(j) == m.v[j]);
+        if let Some(s) = b.as_slice() { assert!(bit(s, j) == m.v[j]); }
+    }
+}
+fn check_result(r: &Option<NullBuffer>, m: &Model) {
+    match r {
+        // None iff no null was ever appended (both directions)
+        None => assert!(!m.mat && m.nulls() == 0),
+        Some(n) => {
+            assert!(m.mat);
+            assert!(n.len() == m.n);
+            assert!(n.null_count() == m.nulls());
+            assert!(n.offset() + n.len() <= 8 * n.validity().len());
+            if m.n > 0 {
+                let i: usize = kani::any();
+                kani::assume(i < m.n);
+                assert!(n.is_valid(i) == m.v[i]);
+            }
+        }
+    }
+}
+fn check_finish(b: &mut NullBufferBuilder, m: &Model) {
+    let c = b.finish_cloned();
+    check_result(&c, m);
+    check(b, m); // finish_cloned leaves the builder unchanged
+    let r = b.finish();
+    check_result(&r, m);
+    assert!(b.len() == 0 && b.as_slice().is_none()); // reset
+}
+
+fn seq_append<const CAP: usize, const N1: usize, const N2: usize, const WITH_NULLS: bool>() {
+    let (v1, v2): (bool, bool) = (kani::any(), kani::any());
+    let mut b = NullBufferBuilder::new(CAP);
+    let mut m = Model::new();
+    b.append_n_non_nulls(N1); m.push_n(N1, true);
+    b.append(v1); m.push(v1);
+    if WITH_NULLS { b.append_n_nulls(N2); m.push_n(N2, false); } else { b.append_n_non_nulls(N2); m.push_n(N2, true); }
+    b.append(v2); m.push(v2);
+    check(&b, &m);
+    set_skews([0; 6]);
+    check_finish(&mut b, &m);
+    kani::cover!(!m.mat);
+    kani::cover!(m.mat && v2);
+    kani::cover!(m.mat && !v1 && v2);
+}
+// Contract (C19/C01) NullBufferBuilder::{new, append, append_n_non_nulls, append_n_nulls, len, is_valid,
+// as_slice, finish_cloned, finish}: after append_n_non_nulls(n1); append(v1); append_n_nulls(n2) or
+// append_n_non_nulls(n2) (n2 >= 1); append(v2) with symbolic v1, v2: length and every validity bit
+// equal the model Vec<bool>; finish_cloned / finish return None exactly when no null was appended,
+// otherwise a NullBuffer with validity == model and null_count == number of false values exactly;
+// finish_cloned leaves the builder unchanged, finish resets it.
+// @unit name=nbb_append_0_3_2_nonnull props=C19,C01 kind=bounded bound=ops=4_shape_(cap,n1,n2,third_op_appends_nulls)=(0,3,2,false)_values_symbolic fns=NullBufferBuilder::new,NullBufferBuilder::append,NullBufferBuilder::append_n_non_nulls,NullBufferBuilder::append_n_nulls,NullBufferBuilder::finish,NullBufferBuilder::finish_cloned,NullBufferBuilder::len,NullBufferBuilder::as_slice tier=thorough timeout=400 note=not_confirmed_under_load
+inst!(nbb_append_0_3_2_nonnull, 12, seq_append::<0, 3, 2, false>());
+// @unit name=nbb_append_0_5_4_nulls props=C19,C01 kind=bounded bound=ops=4_shape_(cap,n1,n2,third_op_appends_nulls)=(0,5,4,true)_values_symbolic fns=NullBufferBuilder::new,NullBufferBuilder::append,NullBufferBuilder::append_n_non_nulls,NullBufferBuilder::append_n_nulls,NullBufferBuilder::finish,NullBufferBuilder::finish_cloned,NullBufferBuilder::len,NullBufferBuilder::as_slice tier=thorough timeout=400 note=not_confirmed_under_load
+inst!(nbb_append_0_5_4_nulls, 14, seq_append::<0, 5, 4, true>());
+// @unit name=nbb_append_16_63_2_nulls props=C19,C01 kind=bounded bound=ops=4_shape_(cap,n1,n2,third_op_appends_nulls)=(16,63,2,true)_values_symbolic fns=NullBufferBuilder::new,NullBufferBuilder::append,NullBufferBuilder::append_n_non_nulls,NullBufferBuilder::append_n_nulls,NullBufferBuilder::finish,NullBufferBuilder::finish_cloned,NullBufferBuilder::len,NullBufferBuilder::as_slice tier=thorough timeout=400 note=not_confirmed_under_load
+inst!(nbb_append_16_63_2_nulls, 70, seq_append::<16, 63, 2, true>());
+// @unit name=nbb_append_0_0_1_nonnull props=C19,C01 kind=bounded bound=ops=4_shape_(cap,n1,n2,third_op_appends_nulls)=(0,0,1,false)_values_symbolic fns=NullBufferBuilder::new,NullBufferBuilder::append,NullBufferBuilder::append_n_non_nulls,NullBufferBuilder::append_n_nulls,NullBufferBuilder::finish,NullBufferBuilder::finish_cloned,NullBufferBuilder::len,NullBufferBuilder::as_slice tier=thorough timeout=400 note=not_confirmed_under_load
+inst!(nbb_append_0_0_1_nonnull, 12, seq_append::<0, 0, 1, false>());
+// @unit name=nbb_append_0_64_65_nulls props=C19,C01 kind=bounded bound=ops=4_shape_(cap,n1,n2,third_op_appends_nulls)=(0,64,65,true)_values_symbolic fns=NullBufferBuilder::new,NullBufferBuilder::append,NullBufferBuilder::append_n_non_nulls,NullBufferBuilder::append_n_nulls,NullBufferBuilder::finish,NullBufferBuilder::finish_cloned,NullBufferBuilder::len,NullBufferBuilder::as_slice tier=thorough timeout=400 note=not_confirmed_under_load
+inst!(nbb_append_0_64_65_nulls, 134, seq_append::<0, 64, 65, true>());
+// @unit name=nbb_append_200_130_1_nonnull props=C19,C01 kind=bounded bound=ops=4_shape_(cap,n1,n2,third_op_appends_nulls)=(200,130,1,false)_values_symbolic fns=NullBufferBuilder::new,NullBufferBuilder::append,NullBufferBuilder::append_n_non_nulls,NullBufferBuilder::append_n_nulls,NullBufferBuilder::finish,NullBufferBuilder::finish_cloned,NullBufferBuilder::len,NullBufferBuilder::as_slice tier=thorough timeout=400 note=not_confirmed_under_load
+inst!(nbb_append_200_130_1_nonnull, 136, seq_append::<200, 130, 1, false>());
+
+fn seq_slice_truncate<const N1: usize, const K: usize, const T: usize>() {
+    let s: [bool; K] = kani::any();
+    let v: bool = kani::any();
+    let mut b = NullBufferBuilder::new(0);
+    let mut m = Model::new();
+    b.append_n_non_nulls(N1); m.push_n(N1, true);
+    b.append_slice(&s); m.push_slice(&s);
+    check(&b, &m);
+    b.truncate(T); m.truncate(T);
+    check(&b, &m);
+    b.append(v); m.push(v);
+    check(&b, &m);
+    set_skews([0; 6]);
+    // after a truncate the "None iff no null appended" reading refers to the operations performed
+    // (m.mat), the exact null count refers to the values still present
+    let c = b.finish_cloned();
+    match &c {
+        None => assert!(!m.mat),
+        Some(n) => {
+            assert!(m.mat && n.len() == m.n && n.null_count() == m.nulls());
+            let i: usize = kani::any();
+            kani::assume(i < m.n);
+            assert!(n.is_valid(i) == m.v[i]);
+        }
+    }
+    let r = b.finish();
+    assert!(r.is_some() == c.is_some());
+    assert!(b.len() == 0);
+    kani::cover!(c.is_none());
+    kani::cover!(c.is_some() && m.nulls() == 0);
+    kani::cover!(c.is_some() && m.nulls() > 1);
+}
+// Contract (C19/C01) NullBufferBuilder::{append_slice, truncate}: after append_n_non_nulls(n1);
+// append_slice(s); truncate(t); append(v) (s, v symbolic): length / validity == model Vec<bool> with
+// Vec::truncate semantics (no effect when t > len); the result of finish is None only if no null was
+// appended by any operation, and when it is Some its validity == model and its null_count is the
+// exact number of false values still present (possibly 0 after truncating the nulls away).
+// @unit name=nbb_slice_truncate_3_6_5 props=C19,C01 kind=bounded bound=ops=4_shape_(n1,slice_len,truncate_to)=(3,6,5)_values_symbolic fns=NullBufferBuilder::append_slice,NullBufferBuilder::truncate,NullBufferBuilder::finish,NullBufferBuilder::finish_cloned tier=thorough timeout=400 note=not_confirmed_under_load
+inst!(nbb_slice_truncate_3_6_5, 13, seq_slice_truncate::<3, 6, 5>());
+// @unit name=nbb_slice_truncate_60_8_63 props=C19,C01 kind=bounded bound=ops=4_shape_(n1,slice_len,truncate_to)=(60,8,63)_values_symbolic fns=NullBufferBuilder::append_slice,NullBufferBuilder::truncate,NullBufferBuilder::finish,NullBufferBuilder::finish_cloned tier=thorough timeout=400 note=not_confirmed_under_load
+inst!(nbb_slice_truncate_60_8_63, 72, seq_slice_truncate::<60, 8, 63>());
+// @unit name=nbb_slice_truncate_0_9_0 props=C19,C01 kind=bounded bound=ops=4_shape_(n1,slice_len,truncate_to)=(0,9,0)_values_symbolic fns=NullBufferBuilder::append_slice,NullBufferBuilder::truncate,NullBufferBuilder::finish,NullBufferBuilder::finish_cloned tier=thorough timeout=400 note=not_confirmed_under_load
+inst!(nbb_slice_truncate_0_9_0, 13, seq_slice_truncate::<0, 9, 0>());
+// @unit name=nbb_slice_truncate_2_3_9 props=C19,C01 kind=bounded bound=ops=4_shape_(n1,slice_len,truncate_to)=(2,3,9)_values_symbolic fns=NullBufferBuilder::append_slice,NullBufferBuilder::truncate,NullBufferBuilder::finish,NullBufferBuilder::finish_cloned tier=thorough timeout=400 note=not_confirmed_under_load
+inst!(nbb_slice_truncate_2_3_9, 12, seq_slice_truncate::<2, 3, 9>());
+
+fn seq_append_buffer<const W: usize, const OFF: usize, const LEN: usize, const NB: usize>() {
+    let bytes: [u8; NB] = any_bytes();
+    skews().ubc(0, OFF, LEN).install();
+    let src = NullBuffer::new(BooleanBuffer::new(Buffer::from_slice_ref(&bytes), OFF, LEN));
+    let v: bool = kani::any();
+    let mut b = NullBufferBuilder::new(0);
+    let mut m = Model::new();
+    b.append_n_non_nulls(W); m.push_n(W, true);
+    b.append_buffer(&src); m.push_bits(&bytes, OFF, LEN);
+    check(&b, &m);
+    b.append(v); m.push(v);
+    check(&b, &m);
+    set_skews([0; 6]);
+    check_finish(&mut b, &m);
+    kani::cover!(!m.mat);
+    kani::cover!(m.mat && src.null_count() == 0);
+    kani::cover!(src.null_count() > 1);
+}
+// Contract (C19/C01) NullBufferBuilder::append_buffer(&NullBuffer): appends exactly the validity values of
+// the (offset, len) view (all source bytes symbolic), earlier values unchanged; finish is None exactly
+// when neither the appended buffer nor any other operation contributed a null; exact null count.
+// @unit name=nbb_append_buffer_3_5_12 props=C19,C01 kind=bounded bound=ops=3_grid_(non_nulls_before,src_offset,len)=(3,5,12) fns=NullBufferBuilder::append_buffer,NullBufferBuilder::finish tier=thorough timeout=400 note=not_confirmed_under_load
+inst!(nbb_append_buffer_3_5_12, 19, seq_append_buffer::<3, 5, 12, 4>());
+// @unit name=nbb_append_buffer_0_0_9 props=C19,C01 kind=bounded bound=ops=3_grid_(non_nulls_before,src_offset,len)=(0,0,9) fns=NullBufferBuilder::append_buffer,NullBufferBuilder::finish tier=thorough timeout=400 note=not_confirmed_under_load
+inst!(nbb_append_buffer_0_0_9, 13, seq_append_buffer::<0, 0, 9, 3>());
+// @unit name=nbb_append_buffer_62_3_70 props=C19,C01 kind=bounded bound=ops=3_grid_(non_nulls_before,src_offset,len)=(62,3,70) fns=NullBufferBuilder::append_buffer,NullBufferBuilder::finish tier=thorough timeout=400 note=not_confirmed_under_load
+inst!(nbb_append_buffer_62_3_70, 136, seq_append_buffer::<62, 3, 70, 11>());
+// @unit name=nbb_append_buffer_7_64_0 props=C19,C01 kind=bounded bound=ops=3_grid_(non_nulls_before,src_offset,len)=(7,64,0) fns=NullBufferBuilder::append_buffer,NullBufferBuilder::finish tier=thorough timeout=400 note=not_confirmed_under_load
+inst!(nbb_append_buffer_7_64_0, 12, seq_append_buffer::<7, 64, 0, 9>());
+
+fn seq_with_len<const N1: usize, const N2: usize>() {
+    let c: bool = kani::any();
+    let mut b = NullBufferBuilder::new_with_len(N1);
+    let mut m = Model::new();
+    m.push_n(N1, true);
+    check(&b, &m); // N1 valid slots, nothing materialized
+    b.append_non_null(); m.push(true);
+    if c { b.append_null(); m.push(false); } else { b.append_non_null(); m.push(true); }
+    b.append_n_non_nulls(N2); m.push_n(N2, true);
+    check(&b, &m);
+    set_skews([0; 6]);
+    check_finish(&mut b, &m);
+    kani::cover!(c);
+    kani::cover!(!c);
+}
+// Contract (C19/C01) NullBufferBuilder::{new_with_len, append_non_null, append_null, is_valid}: the lazy
+// all-valid representation is equivalent to the materialised one: new_with_len(n1) is n1 valid slots;
+// after append_non_null(); (append_null() | append_non_null()); append_n_non_nulls(n2) the length and
+// every validity bit equal the model Vec<bool>, and finish / finish_cloned are None exactly when no
+// null was appended, else validity == model with the exact null count.
+// @unit name=nbb_with_len_5_3 props=C19,C01 kind=bounded bound=ops=4_shape_(len,n2)=(5,3)_null_choice_symbolic fns=NullBufferBuilder::new_with_len,NullBufferBuilder::append_non_null,NullBufferBuilder::append_null,NullBufferBuilder::is_valid,NullBufferBuilder::materialize_if_needed,NullBufferBuilder::materialize tier=thorough timeout=400 note=not_confirmed_under_load
+inst!(nbb_with_len_5_3, 14, seq_with_len::<5, 3>());
+// @unit name=nbb_with_len_0_0 props=C19,C01 kind=bounded bound=ops=4_shape_(len,n2)=(0,0)_null_choice_symbolic fns=NullBufferBuilder::new_with_len,NullBufferBuilder::append_non_null,NullBufferBuilder::append_null,NullBufferBuilder::is_valid,NullBufferBuilder::materialize_if_needed,NullBufferBuilder::materialize tier=thorough timeout=400 note=not_confirmed_under_load
+inst!(nbb_with_len_0_0, 12, seq_with_len::<0, 0>());
+// @unit name=nbb_with_len_63_2 props=C19,C01 kind=bounded bound=ops=4_shape_(len,n2)=(63,2)_null_choice_symbolic fns=NullBufferBuilder::new_with_len,NullBufferBuilder::append_non_null,NullBufferBuilder::append_null,NullBufferBuilder::is_valid,NullBufferBuilder::materialize_if_needed,NullBufferBuilder::materialize tier=thorough timeout=400 note=not_confirmed_under_load
+inst!(nbb_with_len_63_2, 71, seq_with_len::<63, 2>());
+// @unit name=nbb_with_len_64_64 props=C19,C01 kind=bounded bound=ops=4_shape_(len,n2)=(64,64)_null_choice_symbolic fns=NullBufferBuilder::new_with_len,NullBufferBuilder::append_non_null,NullBufferBuilder::append_null,NullBufferBuilder::is_valid,NullBufferBuilder::materialize_if_needed,NullBufferBuilder::materialize tier=thorough timeout=400 note=not_confirmed_under_load
+inst!(nbb_with_len_64_64, 134, seq_with_len::<64, 64>());
+
+fn seq_nb_set_bit<const N1: usize>() {
+    let (j, w): (usize, bool) = (kani::any(), kani::any());
+    kani::assume(j < N1);
+    let mut b = NullBufferBuilder::new(0);
+    let mut m = Model::new();
+    b.append_n_non_nulls(N1); m.push_n(N1, true);
+    b.set_bit(j, w); m.v[j] = w;
+    assert!(b.is_valid(j) == w && b.len() == N1);
+    let i: usize = kani::any();
+    kani::assume(i < N1);
+    assert!(b.is_valid(i) == m.v[i]); // frame: the other N1-1 lazily valid slots are still valid
+    b.append_null(); m.push(false);
+    assert!(b.len() == N1 + 1 && !b.is_valid(N1) && b.is_valid(i) == m.v[i]);
+    set_skews([0; 6]);
+    let r = b.finish();
+    match &r {
+        None => assert!(false), // a null was appended
+        Some(n) => {
+            assert!(n.len() == N1 + 1 && n.null_count() == 1 + (!w) as usize);
+            assert!(n.is_valid(i) == m.v[i] && n.is_null(N1));
+        }
+    }
+    kani::cover!(w);
+    kani::cover!(!w && i != j);
+}
+// Contract (C19/C01) NullBufferBuilder::{set_bit, is_valid} on a lazily all-valid builder: after
+// append_n_non_nulls(n1); set_bit(j, w) (j < n1, w symbolic), slot j reads w and every other slot is
+// still valid (materialisation preserves the n1 implicit trues); after append_null the result of
+// finish has n1+1 slots, validity == model and null_count == 1 + [w == false] exactly.
+// @unit name=nbb_set_bit_9 props=C19,C01 kind=bounded bound=ops=3_shape_n1=9_index_and_value_symbolic fns=NullBufferBuilder::set_bit,NullBufferBuilder::is_valid,NullBufferBuilder::materialize_if_needed tier=thorough timeout=400 note=not_confirmed_under_load
+inst!(nbb_set_bit_9, 14, seq_nb_set_bit::<9>());
+// @unit name=nbb_set_bit_1 props=C19,C01 kind=bounded bound=ops=3_shape_n1=1_index_and_value_symbolic fns=NullBufferBuilder::set_bit,NullBufferBuilder::is_valid,NullBufferBuilder::materialize_if_needed tier=thorough timeout=400 note=not_confirmed_under_load
+inst!(nbb_set_bit_1, 12, seq_nb_set_bit::<1>());
+// @unit name=nbb_set_bit_65 props=C19,C01 kind=bounded bound=ops=3_shape_n1=65_index_and_value_symbolic fns=NullBufferBuilder::set_bit,NullBufferBuilder::is_valid,NullBufferBuilder::materialize_if_needed tier=thorough timeout=400 note=not_confirmed_under_load
+inst!(nbb_set_bit_65, 70, seq_nb_set_bit::<65>());
+
+fn seq_nb_from_buffer<const NB: usize, const LEN: usize>() {
+    let bytes: [u8; NB] = any_bytes();
+    let mut mb = MutableBuffer::new(0);
+    mb.extend_from_slice(&bytes);
+    let v: bool = kani::any();
+    let mut b = NullBufferBuilder::new_from_buffer(mb, LEN);
+    let mut m = Model::new();
+    m.push_bits(&bytes, 0, LEN);
+    m.mat = true; // a builder created from a bitmap always answers Some
+    check(&b, &m);
+    b.append(v); m.push(v);
+    check(&b, &m);
+    set_skews([0; 6]);
+    check_finish(&mut b, &m);
+    kani::cover!(m.nulls() == 0);
+    kani::cover!(m.nulls() > 1);
+}
+// Contract (C19/C01) NullBufferBuilder::new_from_buffer(buf, len), len <= 8*bytes: validity = the first len
+// bits of buf (symbolic bytes; bits >= len are not read as data), further appends land after them,
+// finish returns Some with validity == model and the exact null count.
+// @unit name=nbb_new_from_buffer_2_13 props=C19,C01 kind=bounded bound=grid_(bytes,len)=(2,13) fns=NullBufferBuilder::new_from_buffer tier=thorough timeout=400 note=not_confirmed_under_load
+inst!(nbb_new_from_buffer_2_13, 18, seq_nb_from_buffer::<2, 13>());
+// @unit name=nbb_new_from_buffer_9_64 props=C19,C01 kind=bounded bound=grid_(bytes,len)=(9,64) fns=NullBufferBuilder::new_from_buffer tier=thorough timeout=400 note=not_confirmed_under_load
+inst!(nbb_new_from_buffer_9_64, 69, seq_nb_from_buffer::<9, 64>());
+// @unit name=nbb_new_from_buffer_1_0 props=C19,C01 kind=bounded bound=grid_(bytes,len)=(1,0) fns=NullBufferBuilder::new_from_buffer tier=thorough timeout=400 note=not_confirmed_under_load
+inst!(nbb_new_from_buffer_1_0, 12, seq_nb_from_buffer::<1, 0>());
